@@ -539,8 +539,20 @@ func (d *driver) preface(r int) {
 			loan := pos(d.maxLoan(amt, p.AssetIn, p.AssetOut, d.ltvOf(p)) * 9 / 10)
 			d.do("Borrow", M{"u": u, "lend": lendID(u, 1, 1), "pair": int64(2), "ca": int64(1), "cin": amt, "la": int64(p.AssetOut), "loan": loan, "stable": false, "mis": false})
 		}
-		if b, ok := lastBorrow(); ok {
-			d.aim(b, 1.05, 1.5)
+		// an e-mode position between the plain and the e-mode threshold: neither the message nor the sweep may seize it
+		pe := d.pair(11)
+		d.do("Lend", M{"u": "u1", "pool": int64(1), "asset": int64(2), "da": int64(2), "amt": amt * 2})
+		le := pos(d.maxLoan(amt*2, pe.AssetIn, pe.AssetOut, d.ltvOf(pe)) * 9 / 10)
+		d.do("Borrow", M{"u": "u1", "lend": lendID("u1", 2, 1), "pair": int64(11), "ca": int64(2), "cin": amt * 2, "la": int64(pe.AssetOut), "loan": le, "stable": false, "mis": false})
+		if b, ok := lastBorrow(); ok && b.PairID == 11 {
+			d.aim(b, 0.93, 0.99)
+			d.do(d.liqAction(), M{"u": "kp", "b": int64(b.ID)})
+			d.do("Tick", M{"dt": int64(6)})
+			d.do("Tick", M{"dt": int64(6)})
+			d.do("Tick", M{"dt": int64(6)})
+		}
+		if bs := k.GetAllBorrow(e.Ctx); len(bs) > 0 {
+			d.aim(bs[0], 1.05, 1.5)
 			for n := 0; n < 7; n++ {
 				d.do("Tick", M{"dt": int64(6)})
 			}
